@@ -2,8 +2,12 @@
 
 use crate::runner::{Env, Job};
 
+pub mod c01;
+pub mod c02;
+pub mod c03;
 pub mod c07;
 pub mod c10;
+pub mod gcase;
 
 pub struct Meta {
     pub rule: &'static str,
@@ -11,7 +15,7 @@ pub struct Meta {
     pub assumptions: Vec<&'static str>,
 }
 
-const IDS: &[&str] = &["C07", "C10"];
+const IDS: &[&str] = &["C01", "C02", "C03", "C07", "C10"];
 
 pub fn all_ids() -> Vec<&'static str> {
     IDS.to_vec()
@@ -19,6 +23,9 @@ pub fn all_ids() -> Vec<&'static str> {
 
 pub fn jobs(id: &str, env: &Env) -> Vec<Box<dyn Job>> {
     match id {
+        "C01" => c01::jobs(env),
+        "C02" => c02::jobs(env),
+        "C03" => c03::jobs(env),
         "C07" => c07::jobs(env),
         "C10" => c10::jobs(env),
         _ => Vec::new(),
@@ -33,6 +40,9 @@ const COMMON_ASSUMPTIONS: &[&str] = &[
 
 pub fn meta(id: &str) -> Meta {
     let (rule, technique): (&'static str, &'static str) = match id {
+        "C01" => (c01::RULE, c01::TECHNIQUE),
+        "C02" => (c02::RULE, c02::TECHNIQUE),
+        "C03" => (c03::RULE, c03::TECHNIQUE),
         "C07" => (c07::RULE, c07::TECHNIQUE),
         "C10" => (c10::RULE, c10::TECHNIQUE),
         _ => ("", ""),
